@@ -279,9 +279,10 @@ async def run_scenario(aiocoap, sc):
             consumer = loop.create_task(consume())
             await turn(2)
         steps = list(sc["steps"])
+        gave_up = False
         if steps and steps[0] == ["RC"]:
             steps.pop(0)
-            req.response.cancel()
+            gave_up = req.response.cancel() or gave_up
             await turn(4)
         deliver(block_response(first.token, 0, "ok", observe=1))
         for st in steps:
@@ -310,7 +311,8 @@ async def run_scenario(aiocoap, sc):
                     escaped.append(type(e).__name__)
                 await turn(4)
             elif st[0] == "RC":
-                req.response.cancel()
+                # (True only while the response is still pending, e.g. its body is still being fetched)
+                gave_up = req.response.cancel() or gave_up
                 await turn(4)
             elif st[0] == "T":
                 await turn(st[1])
@@ -350,7 +352,7 @@ async def run_scenario(aiocoap, sc):
         loop.set_exception_handler(old)
     return {"seen": snapshot, "resp": resp, "escaped": escaped, "loop_errors": loop_errors, "pending": pending,
             "served": state["served"], "outstanding": outstanding, "trace": trace_snapshot,
-            "lower_end": trace_end}
+            "lower_end": trace_end, "gave_up": gave_up}
 
 
 # ---------------------------------------------------------------------------------------------
@@ -376,7 +378,11 @@ def oracle(sc, res):
             return (f"the application was handed {x[1]} as the error: the end of an observation is an exception "
                     "instance derived from aiocoap's error.Error"), "bw:error-not-instance"
     steps = sc["steps"]
-    if steps and steps[0] == ["RC"]:
+    if res["gave_up"]:
+        # the application's request.response.cancel() found the future pending (it returned True): the request was
+        # given up before its response was complete
+        if res["resp"] != ("cancelled",):
+            return f"response future: cancelled by the application, found {res['resp']}", "bw:response"
         if [x for x in seen if x[0] == "item"]:
             return f"items handed over although the request was given up: {seen}", "bw:after-end"
         if sc["consumer"] == "callbacks":
@@ -583,6 +589,11 @@ def boundary_scenarios():
         out.append({"consumer": cons, "work": work, "reps": reps, "hows": [],
                     "steps": [["RC"], ["serve"], ["N", 1, 2], ["serve"]]})
         out.append({"consumer": cons, "work": work, "reps": reps, "hows": [], "steps": [["RC"]]})
+        out.append({"consumer": cons, "work": work, "reps": reps, "hows": [],
+                    "steps": [["T", 2], ["RC"], ["serve"], ["N", 1, 2], ["serve"]]})
+        # ... and once the response is complete, which changes nothing
+        out.append({"consumer": cons, "work": work, "reps": reps, "hows": [],
+                    "steps": [["serve"], ["RC"], ["N", 1, 2], ["serve"], ["N", 2, 3], ["serve"]]})
     return out
 
 
